@@ -777,6 +777,10 @@ func (tr *tracer) execStmt(fi *FuncInfo, s ast.Stmt, st *pathState) []*pathState
 						if b, ok := info.TypeOf(nm).Underlying().(*types.Basic); ok && b.Info()&(types.IsBoolean|types.IsInteger) != 0 {
 							st.store[nm.Name], st.known[nm.Name] = 0, true
 						}
+						// a pointer declared without a value is nil until it is assigned
+						if _, isPtr := info.TypeOf(nm).Underlying().(*types.Pointer); isPtr {
+							st.store[nm.Name], st.known[nm.Name] = 0, true
+						}
 					}
 				}
 			}
@@ -1332,6 +1336,18 @@ func (tr *tracer) assign(info *types.Info, lhs ast.Expr, rhs ast.Expr, tok token
 		return
 	}
 	rhs = ast.Unparen(rhs)
+	// an interface variable that is given a value of a concrete type holds that type on this path
+	if tok == token.DEFINE || tok == token.ASSIGN {
+		if lt := info.TypeOf(lhs); lt != nil && types.IsInterface(lt) {
+			delete(st.valT, id.Name)
+			if rt := info.TypeOf(rhs); rt != nil && !types.IsInterface(rt) && !isNil(info, rhs) {
+				if st.valT == nil {
+					st.valT = map[string]types.Type{}
+				}
+				st.valT[id.Name] = rt
+			}
+		}
+	}
 	switch tok {
 	case token.DEFINE, token.ASSIGN:
 		if rid, ok := rhs.(*ast.Ident); ok && (rid.Name == "true" || rid.Name == "false") {
@@ -1347,6 +1363,25 @@ func (tr *tracer) assign(info *types.Info, lhs ast.Expr, rhs ast.Expr, tok token
 		delete(st.alias, id.Name)
 		if c, ok := rhs.(*ast.CallExpr); ok && exprStr(c.Fun) == "len" && len(c.Args) == 1 {
 			st.alias[id.Name] = st.resolve(normAtom(rhs))
+		}
+		// an error just made is not nil
+		if c, ok := rhs.(*ast.CallExpr); ok && isErrorType(info.TypeOf(lhs)) {
+			switch calleeName(info, c) {
+			case "fmt.Errorf", "errors.New", "NewErrProtocol":
+				st.known[id.Name], st.store[id.Name] = true, 1
+				return
+			}
+		}
+		// a pointer to something just made (new(T), &T{...}) is not nil
+		if c, ok := rhs.(*ast.CallExpr); ok && calleeName(info, c) == "builtin.new" {
+			st.known[id.Name], st.store[id.Name] = true, 1
+			return
+		}
+		if u, ok := rhs.(*ast.UnaryExpr); ok && u.Op == token.AND {
+			if _, isLit := ast.Unparen(u.X).(*ast.CompositeLit); isLit {
+				st.known[id.Name], st.store[id.Name] = true, 1
+				return
+			}
 		}
 		// a local copy of a variable / field path (head := f.header; flags := head.flags) stands for that path
 		if rid, ok := rhs.(*ast.Ident); ok && st.known[rid.Name] {
